@@ -72,11 +72,17 @@ def gen_history(rng, n_ops):
             s = c01.gen_stack(rng, rng.randint(1, 10), D, L, OPS_ALL, int_values=(0, 1, 2, 3, -1))
             stacks[i] = [list(r) for r in s]
             ops.append(["set", i, s])
-        elif k < 0.40:
+        elif k < 0.36:
             r = rng.randrange(len(stacks[i]))
             row = gen_row(rng, r, L)
             stacks[i][r] = row
             ops.append(["row", i, r, row])
+        elif k < 0.40:
+            # the caller edits the array it got from the getter and assigns THE SAME OBJECT through the setter
+            r = rng.randrange(len(stacks[i]))
+            row = gen_row(rng, r, L)
+            stacks[i][r] = row
+            ops.append(["reset", i, r, row, [list(x) for x in stacks[i]]])
         elif k < 0.52:
             ops.append(["consts", i, [rng.randint(-3, 3) for _ in range(rng.randint(0, 6))]])
         elif k < 0.74:
@@ -128,6 +134,8 @@ def coq_case(ops, table):
             n += 1
         elif op[0] == "set":
             t = "SetArray %d%%nat %s" % (op[1], coq_stack(op[2]))
+        elif op[0] == "reset":
+            t = "SetArray %d%%nat %s" % (op[1], coq_stack(op[4]))
         elif op[0] == "row":
             t = "WriteRow %d%%nat %d%%nat (%s, %s, %s)" % (op[1], op[2], vlib.cz(op[3][0]), vlib.cz(op[3][1]), vlib.cz(op[3][2]))
         elif op[0] == "consts":
@@ -253,6 +261,13 @@ def impl_main(payload):
                     objs[op[1]].command_array = np.array(op[2], dtype=int)
                     stats["writes"] += 1
                     watch = [op[1]]
+                elif op[0] == "reset":
+                    arr = objs[op[1]].command_array
+                    arr.flags.writeable = True
+                    arr[op[2]] = op[3]
+                    objs[op[1]].command_array = arr
+                    stats["writes"] += 1
+                    watch = [op[1]]
                 elif op[0] == "row":
                     view = objs[op[1]].mutable_command_array
                     view[op[2]] = op[3]
@@ -292,7 +307,7 @@ def impl_main(payload):
                 else:
                     objs[op[1]].genetic_age = op[2]
                     watch = [op[1]]
-                if op[0] in ("set", "row"):
+                if op[0] in ("set", "row", "reset"):
                     v1 = wb(objs[op[1]])
                     if not v1["mod"] or v1["fset"] or v1["fit"] is not None:
                         viol.append("step %d: a stack write left modified=%r fit_set=%r fitness=%r" % (t, v1["mod"], v1["fset"], v1["fit"]))
@@ -359,8 +374,8 @@ def check(rep, proof):
     rep.coverage.update(
         evaluations=stats["ops"],
         distinct_nontrivial=len({repr(h) for h in hists if len(h) > 6}),
-        rule="random histories over up to 6 live AGraph objects (40% with CAS simplification): setter writes, row writes through a "
-             "freshly obtained mutable view, constant writes (after querying the count), all ten observers, fitness/age writes, "
+        rule="random histories over up to 6 live AGraph objects (40% with CAS simplification): setter writes (of a new array, and of the very array object the equation already "
+             "holds after the caller edited it), row writes through a freshly obtained mutable view, constant writes (after querying the count), all ten observers, fitness/age writes, "
              "copy()/deepcopy of originals and of copies, and a closing phase writing to every object then reading all; after every "
              "operation the white-box state of the touched objects is compared with the Coq model; oracle: each observation against "
              "a fresh AGraph(stack, flag, constants), all other objects unchanged by every operation, copy == source",
@@ -373,7 +388,7 @@ def check(rep, proof):
         "simplify_stack/reduce_stack enter the theorems as an arbitrary function S of (flag, stack); the harness checks that the real "
         "simplify_stack behaved as a function on every input it saw and uses the C01 model for reduce_stack",
         "arrays are modelled as cells of a store, objects hold references; numpy views other than a freshly obtained "
-        "mutable_command_array, and stacks passed to the setter that the caller keeps writing to, are outside the model (and the property)",
+        "mutable_command_array, and stacks passed to the setter that the caller keeps writing to WITHOUT assigning them again, are outside the model (and the property)",
         "constant writes of the wrong length are outside the property (the harness queries the count first, as bingo's optimiser does)",
         "the string constructor is covered by scripted scenarios only (F18, fixed)",
     ]
